@@ -112,6 +112,7 @@ PROPS["C01"] = {
         ("R-NALGEBRA-SOLVE", rules_lm.rule_nalgebra_solve, {"configs": ("default",)}),
         ("R-SETTER-FRAME", rp2.rule_setter_frame, {}),
         ("R-CTOR-SIBLINGS", rp2.rule_ctor_siblings, {}),
+        ("R-WEIGHTS-CTOR", rp2.rule_weights_ctor, {}),
     ],
     "explanation": "Provenance of the coefficient solve decided on the term reconstructed from MIR for both LeastSquaresProblem impls: "
                    "cached coefficients = SVD::solve(svd(W*Model::eval(model after Model::set_params), true, true), weighted data role, epsilon role by pure copy); "
@@ -130,6 +131,7 @@ PROPS["C02"] = {
         ("R-WHO-WRITES", rp2.rule_who_writes, {}),
         ("R-DATA-WEIGHT-ONCE", rp2.rule_data_weight_once, {}),
         ("R-COEF-SOLVE", rp.rule_coef_solve, {}),
+        ("R-WEIGHTS-CTOR", rp2.rule_weights_ctor, {}),
     ],
     "explanation": "One-state rules: cached residuals = Y_w - (W*Phi)*C built from the same W*Phi and C term nodes that feed the SVD and the coefficient role; "
                    "residuals() is the column-major flattening of that matrix; accessors are pure projections of their roles; best_fit = eval(model)*C; "
@@ -180,6 +182,7 @@ PROPS["C06"] = {
         ("R-COEF-SOLVE", rp.rule_coef_solve, {}),
         ("R-RESID-TERM", rp.rule_resid_term, {}),
         ("R-WEIGHT-USES", rp2.rule_weight_uses, {}),
+        ("R-WEIGHTS-CTOR", rp2.rule_weights_ctor, {}),
     ],
     "explanation": "Every multiplication by weights in the crate uses the single weights role (problem / builder / statistics argument) and is applied to an unweighted quantity exactly once "
                    "(Y at build, Phi at every update, each D_k in the Jacobian, J and Phi*c in the statistics); default weights are Unit; Unit is the identity; Diagonal is elementwise row scaling. "
@@ -275,6 +278,7 @@ PROPS["C18"] = {
         ("R-CTOR-SIBLINGS", rp2.rule_ctor_siblings, {}),
         ("R-DATA-WEIGHT-ONCE", rp2.rule_data_weight_once, {}),
         ("R-OBS-RESHAPE", rp2.rule_obs_reshape, {}),
+        ("R-WEIGHTS-CTOR", rp2.rule_weights_ctor, {}),
     ],
     "explanation": "build() decision table by edge dominance: each LevMarBuilderError only under its own condition and Ok only after data present, non-zero lengths, equal row counts and fitting weights; "
                    "Ok(problem) passes LeastSquaresProblem::set_params(&mut problem, &model.params()) after the struct is built with an empty cache; each setter writes exactly its own field (frame rule), so call order only matters through last-write-wins; all constructors build the same empty builder; epsilon stored as |eps|.",
